@@ -247,17 +247,21 @@ def c_case_elem(x, case, r, sugg=True):
     if twin is not None and "unparsed" not in twin and "error" not in twin and not malformed(r["echo"]) and not malformed(twin["echo"]):
         twin_c = "(Some %s)" % syntax.c_conv_obs(twin)
     rp = (r.get("extra") or {}).get("reprint")
+    sub = r.get("sub_out")
+    sub_c = "None"
+    if sub is not None and not any("error" in o for o in sub):
+        sub_c = "(Some %s)" % clist([syntax.c_conv_obs(o) for o in sub])
     return ("{| ce_recv := %s; ce_consts := %s; ce_pf := %s; ce_or := %s; ce_sugg := %s; ce_sim := %s; ce_input := %s; ce_obs := %s; "
-            "ce_twin := %s; ce_reprint := %s; ce_fields_toks := %s |}" % (
+            "ce_twin := %s; ce_reprint := %s; ce_fields_toks := %s; ce_sub := %s |}" % (
                 c_erecv(x), c_econsts(x), syntax.c_pf(r.get("pf", [])), syntax.c_oracles(r.get("or")), cbool(sugg), sim,
                 c_einput(r["echo"]), syntax.c_conv_obs(r), twin_c,
-                copt(rp if isinstance(rp, str) else None, cstr), copt(fields_toks_of(r["echo"]), cstr)))
+                copt(rp if isinstance(rp, str) else None, cstr), copt(fields_toks_of(r["echo"]), cstr), sub_c))
 
 
 # ---------------------------------------------------------------- input generation
 NOISE = ['#[doc = "a doc"]', "/** a doc comment */", "#[cfg(test)]", "#[derive(Clone)]", "#[other(a b c !)]", "#[my::tool(x)]", "#[keep]",
          "#[keep(1, 2)]", "#[allow(dead_code)]", '#[serde(rename = "x")]', "#[x(y = 1)]", "#[my::attr::deep(q)]", "#[doc(hidden)]",
-         "#[inline]", "#[my::tool]", '#[path = "p"]']
+         "#[inline]", "#[my::tool]", '#[path = "p"]', "#[::a(flag)]", "#[::keep]", "#[::x(q = 1)]", "#[::my::attr(z)]", "#[::doc(hidden)]"]
 
 
 def own_items(rng, x, mistakes=0):
@@ -322,7 +326,7 @@ def attr_list(rng, x, mistakes=0, noise=True, odd_forms=True):
 
 
 def attr_name_of(text):
-    m = re.match(r"#\[\s*([A-Za-z_:0-9]+)", text)
+    m = re.match(r"#\[\s*([A-Za-z_:0-9]+)", text)      # a leading `::` is kept: such a path equals no declared name
     if text.startswith("/**"):
         return "doc"
     return m.group(1).replace(" ", "") if m else ""
@@ -491,6 +495,15 @@ def make_case(rng, x, mistakes=0, with_twin=False):
                 c["twin_src"] = src.replace(texts(attrs), texts(can), 1)
     c["recv"] = x["name"]
     c["op"] = "elem"
+    # C16: the body's element converter is also run on every field / variant on its own (plain receivers only)
+    if x["kind"] == "derive_input" and x["data"] and "data" in x["data"]:
+        v, f = x["data"]["data"]
+        if isinstance(f, str) and f in EBY:
+            c["sub_f"] = f
+        if isinstance(v, str) and v in EBY:
+            c["sub_v"] = v
+    if x["kind"] == "variant" and isinstance(x["fields_magic"], str) and x["fields_magic"] in EBY:
+        c["sub_f"] = x["fields_magic"]
     words = sorted(set(re.findall(r"[A-Za-z_][A-Za-z0-9_:]*", c["src"])))
     names = sorted(all_names(x))
     c["pairs"] = [(w, n) for w in words for n in names][:600]
